@@ -9,6 +9,7 @@ import (
 	"fmt"
 
 	"github.com/ah-naf/borno/ast"
+	"github.com/ah-naf/borno/lexer"
 	"github.com/ah-naf/borno/token"
 	"github.com/ah-naf/borno/utils"
 )
@@ -806,20 +807,94 @@ func VH_template(which int) {
 	checkAgainstReference(toks)
 }
 
-// VH_reserved: declaring a built-in's name as a variable or function is rejected.
+// VH_reserved: declaring a built-in's name as a variable or function is rejected — whatever
+// follows the name (nothing, a scalar / array / object initialiser) and wherever the name
+// sits in a comma-separated declaration.
 func VH_reserved() {
 	which := verifChoice(len(refReserved))
 	name := refReserved[which]
-	kw := token.VAR
-	if verifChoice(2) == 1 {
-		kw = token.FUN
-	}
-	toks := []token.Token{mkTok(0, kw), {Type: token.IDENTIFIER, Lexeme: name, Line: 1}}
-	if kw == token.VAR {
-		toks = append(toks, mkTok(2, token.SEMICOLON))
-	} else {
-		toks = append(toks, mkTok(2, token.LEFT_PAREN), mkTok(3, token.RIGHT_PAREN), mkTok(4, token.LEFT_BRACE), mkTok(5, token.RIGHT_BRACE))
+	shape := verifChoice(7)
+	res := token.Token{Type: token.IDENTIFIER, Lexeme: name, Line: 1}
+	LB, RB := token.LEFT_BRACKET, token.RIGHT_BRACKET
+	var toks []token.Token
+	switch shape {
+	case 0: // var NAME ;
+		toks = []token.Token{mkTok(0, token.VAR), res, mkTok(2, token.SEMICOLON)}
+	case 1: // fun NAME ( ) { }
+		toks = []token.Token{mkTok(0, token.FUN), res, mkTok(2, token.LEFT_PAREN), mkTok(3, token.RIGHT_PAREN), mkTok(4, token.LEFT_BRACE), mkTok(5, token.RIGHT_BRACE)}
+	case 2: // var NAME = 5 ;
+		toks = []token.Token{mkTok(0, token.VAR), res, mkTok(2, token.EQUAL), mkTok(3, token.NUMBER), mkTok(4, token.SEMICOLON)}
+	case 3: // var NAME = [ 1 ] ;
+		toks = []token.Token{mkTok(0, token.VAR), res, mkTok(2, token.EQUAL), mkTok(3, LB), mkTok(4, token.NUMBER), mkTok(5, RB), mkTok(6, token.SEMICOLON)}
+	case 4: // var NAME = { k : 1 } ;
+		toks = []token.Token{mkTok(0, token.VAR), res, mkTok(2, token.EQUAL), mkTok(3, token.LEFT_BRACE), mkTok(4, token.IDENTIFIER), mkTok(5, token.COLON), mkTok(6, token.NUMBER), mkTok(7, token.RIGHT_BRACE), mkTok(8, token.SEMICOLON)}
+	case 5: // var a = 1 , NAME = [ ] ;
+		toks = []token.Token{mkTok(0, token.VAR), mkTok(1, token.IDENTIFIER), mkTok(2, token.EQUAL), mkTok(3, token.NUMBER), mkTok(4, token.COMMA), res, mkTok(6, token.EQUAL), mkTok(7, LB), mkTok(8, RB), mkTok(9, token.SEMICOLON)}
+	default: // for ( var NAME = { } ; ; ) a ;
+		toks = []token.Token{mkTok(0, token.FOR), mkTok(1, token.LEFT_PAREN), mkTok(2, token.VAR), res, mkTok(4, token.EQUAL), mkTok(5, token.LEFT_BRACE), mkTok(6, token.RIGHT_BRACE), mkTok(7, token.SEMICOLON), mkTok(8, token.SEMICOLON), mkTok(9, token.RIGHT_PAREN), mkTok(10, token.IDENTIFIER), mkTok(11, token.SEMICOLON)}
 	}
 	toks = append(toks, token.Token{Type: token.EOF, Lexeme: "", Line: 1})
 	checkAgainstReference(toks)
+}
+
+// ---- systematic single-token mutation of valid programs (C08: "every valid-program prefix
+// extended by every possible next token") ----
+
+var mutSources = []string{
+	"a = b + c * d;",
+	"\u09af\u09a6\u09bf (a) b; \u09a8\u09be\u09b9\u09df c;",
+	"\u09af\u09a6\u09bf (a) { b; } \u09a8\u09be\u09b9\u09df \u09af\u09a6\u09bf (c) { d; } \u09a8\u09be\u09b9\u09df { e; }",
+	"\u09af\u09a4\u0995\u09cd\u09b7\u09a3 (a < b) { a = a + 1; \u09a5\u09be\u09ae\u09cb; }",
+	"\u09ab\u09b0 (\u09a7\u09b0\u09bf i = 0; i < n; i = i + 1) \u09a6\u09c7\u0996\u09be\u0993 i;",
+	"\u09ab\u09b0 (;;) { \u099a\u09be\u09b2\u09bf\u09df\u09c7_\u09af\u09be\u0993; }",
+	"\u09ab\u09be\u0982\u09b6\u09a8 f(a, b) { \u09ab\u09c7\u09b0\u09a4 a; }",
+	"\u09a7\u09b0\u09bf x = 1, y;",
+	"\u09a6\u09c7\u0996\u09be\u0993 f(a, b)[0].k;",
+	"x = [1, [2], {k: 3, j: 4}];",
+	"a.b.c = !-~d ** e;",
+	"\u09ab\u09c7\u09b0\u09a4;",
+	"{ \u09a7\u09b0\u09bf a = 1; { a; } }",
+	"a || b && c == d != e <= f << g;",
+}
+
+func lexForMutation(src string) []token.Token {
+	utils.HadError = false
+	toks := lexer.NewScanner([]rune(src)).ScanTokens()
+	out := make([]token.Token, len(toks))
+	for i, t := range toks {
+		out[i] = t
+		if t.Type != token.EOF {
+			out[i].Lexeme = fmt.Sprintf("t%d", i)
+		}
+		out[i].Line = 1
+	}
+	verifClearEvents()
+	utils.HadError = false
+	return out
+}
+
+// VH_mutate: valid program number prog with the token at one position (chosen by forking)
+// replaced by a token of arbitrary type (mode 0), with an arbitrary token inserted there
+// (mode 1), or with that token deleted (mode 2).
+func VH_mutate(prog int, mode int) {
+	toks := lexForMutation(mutSources[prog])
+	n := len(toks) - 1
+	pos := verifChoice(n)
+	var mutated []token.Token
+	switch mode {
+	case 0:
+		mutated = append(mutated, toks[:pos]...)
+		mutated = append(mutated, mkTok(pos, anyType()))
+		mutated = append(mutated, toks[pos+1:]...)
+	case 1:
+		mutated = append(mutated, toks[:pos]...)
+		h := mkTok(100+pos, anyType())
+		h.Lexeme = fmt.Sprintf("ins%d", pos)
+		mutated = append(mutated, h)
+		mutated = append(mutated, toks[pos:]...)
+	default:
+		mutated = append(mutated, toks[:pos]...)
+		mutated = append(mutated, toks[pos+1:]...)
+	}
+	checkAgainstReference(mutated)
 }
